@@ -85,3 +85,44 @@ Proof.
   - rewrite Hl. lra.
 Qed.
 
+Lemma sum2_cons g a xs b ys : sum2 g (a :: xs) (b :: ys) = g a b + sum2 g xs ys.
+Proof. reflexivity. Qed.
+
+Lemma sum2_ext (g h : R -> R -> R) xs ys : (forall x y, g x y = h x y) -> sum2 g xs ys = sum2 h xs ys.
+Proof.
+  intro E. revert ys. induction xs as [| x xs IH]; intros [| y ys]; try reflexivity.
+  rewrite !sum2_cons, E, IH. reflexivity.
+Qed.
+
+Lemma sum2_fst (g : R -> R) xs ys : length xs = length ys -> sum2 (fun x _ => g x) xs ys = sum1 g xs.
+Proof.
+  revert ys. induction xs as [| x xs IH]; intros [| y ys] Hl; try discriminate Hl; try reflexivity.
+  rewrite sum2_cons, IH by (simpl in Hl; lia). reflexivity.
+Qed.
+
+Lemma sum2_snd (g : R -> R) xs ys : length xs = length ys -> sum2 (fun _ y => g y) xs ys = sum1 g ys.
+Proof.
+  revert ys. induction xs as [| x xs IH]; intros [| y ys] Hl; try discriminate Hl; try reflexivity.
+  rewrite sum2_cons, IH by (simpl in Hl; lia). reflexivity.
+Qed.
+
+Lemma sum1_cons g a xs : sum1 g (a :: xs) = g a + sum1 g xs.
+Proof. reflexivity. Qed.
+
+Lemma sum1_id xs : sum1 (fun x => x) xs = Sx xs.
+Proof. unfold sum1, Sx. rewrite map_id. reflexivity. Qed.
+
+Lemma sum1_const c xs : sum1 (fun _ => c) xs = INR (length xs) * c.
+Proof.
+  induction xs as [| x xs IH]; [simpl; unfold sum1, fsum; simpl; ring |].
+  rewrite sum1_cons, IH. cbn [length]. rewrite S_INR. ring.
+Qed.
+
+Lemma sum1_ext (g h : R -> R) xs : (forall x, g x = h x) -> sum1 g xs = sum1 h xs.
+Proof. intro E. induction xs as [| x xs IH]; [reflexivity |]. rewrite !sum1_cons, E, IH. reflexivity. Qed.
+
+Lemma sum2_sq_nonneg (h : R -> R -> R) xs ys : 0 <= sum2 (fun x y => h x y * h x y) xs ys.
+Proof.
+  revert ys. induction xs as [| x xs IH]; intros [| y ys]; try (unfold sum2, fsum; simpl; lra).
+  rewrite sum2_cons. specialize (IH ys). nra.
+Qed.
